@@ -28,6 +28,7 @@ ASSUMPTIONS = [
     "str is an SMT-LIB Unicode string; lower/upper/strip are uninterpreted functions constrained by idempotence-style axioms plus ground facts computed by CPython on solver models",
     "s * n is an uninterpreted py_rep(s, n) with rep(s,0)='', rep(s,1)=s, len(rep(s,n))=len(s)*n for n>=0",
     "str.replace(a,b) is SMT-LIB str.replace_all (equal for non-empty a)",
+    "str.split() without a separator is an assumed model: a list of py_nwords(s) >= 0 words py_word(s, i), both uninterpreted and refined on ground instances by CPython; s.split(c)[0] for a constant non-empty c is the exact term 'text before the first c, else s'; s.strip(chars) is an uninterpreted py_strip_chars(s, chars) with length / substring / idempotence axioms (used by Parser._get_include_filename only)",
     "termination of recursive functions is not verified (partial correctness)",
     "the string axioms (lower/upper idempotent, ASCII delimiters never created or changed, ASCII-only lower∘upper∘lower, strip / replace / repeat facts) are assumed for all strings and re-checked against this CPython on every run: character-wise over every code point, the others on a fixed family of strings (sym.selftest_axioms)",
     "decorators are not executed: click.*, main.*, v_args, classmethod, staticmethod, functools.wraps and utils.deprecated are assumed not to change what a call does; a function under any other decorator is out of reach",
